@@ -914,9 +914,13 @@ package scipipe
 // hypothesis on a and b in the step clause; it is a consequence of the placeholder pattern and of
 // strings.Split that is not proved here.)
 //@ axiom re.join.group: forall a string, b string :: fullMatch(a, "[^{}|]*") && !contains(a, "join:") && fullMatch(b, "[^{}|]+") ==> reGroup("join:([^{}|]+)", a + "join:" + b, 1) == b
+//@ axiom re.ext.group: forall e string :: fullMatch(e, "[a-z0-9._\\-]+") ==> reGroup("\\.([a-z0-9\\.\\-\\_]+)", "." + e, 1) == e
 //@ func (*Process).initPortsFromCmdPattern(p, cmd, params)
-//@   props C18
+//@   props C15 C18
 //@   modifies *
+//@   loop 0 step port-type-and-name-come-from-the-placeholder[C15]: portType == ms[prev($i)][1] && portName == splitOf(ms[prev($i)][2], "|")[0] && p.PortInfo[portName] != nil && p.PortInfo[portName].portType == portType
+//@   loop 1 invariant type-kept: p.PortInfo[portName] != nil && p.PortInfo[portName].portType == portType
+//@   loop 1 step extension-is-the-text-after-the-dot[C15]: forall e string :: part == "." + e && fullMatch(e, "[a-z0-9._\\-]+") ==> p.PortInfo[portName].extension == e
 //@   loop 1 step join-separator-is-whole-text-after-join[C18]: forall a string, b string :: part == a + "join:" + b && fullMatch(a, "[^{}|]*") && !contains(a, "join:") && fullMatch(b, "[^{}|]+") ==> p.PortInfo[portName].join && p.PortInfo[portName].joinSep == b
 // ---------------------------------------------------------------------------
 // C16 / C04: wiring (port.go), readiness (baseprocess.go), starting processes (workflow.go)
